@@ -315,6 +315,9 @@ func TestC08_Privacy(t *testing.T) {
 				ref, how = target.Scopes[rapid.IntRange(0, len(target.Scopes)-1).Draw(rt, "scopeIdx")]+"@"+dig256, "exact"
 			}
 			c = Case{Family: "privacy", Kind: "oci", Stmts: d.Stmts, Perm: perm, Ref: ref, RefKind: "listed", Via: "direct"}
+			if how == "wildcard" {
+				c.RefKind = "unlisted"
+			}
 			doc := buildOCI(d.Stmts, perm)
 			mustValidOCI(t, doc, d.Stmts)
 			got, err := doc.GetApplicableTrustPolicy(ref)
@@ -339,6 +342,9 @@ func TestC08_Privacy(t *testing.T) {
 				}
 			}
 			c = Case{Family: "privacy", Kind: "blob", Stmts: stmts, Perm: perm, Ref: name, RefKind: "listed", Via: "direct"}
+			if name == "" {
+				c.RefKind = "none-given"
+			}
 			doc := buildBlob(stmts, perm)
 			mustValidBlob(t, doc, stmts)
 			bs := &blobSubject{stmts: stmts, perm: perm, name: name}
